@@ -430,7 +430,7 @@ func (f *Font) GlyphName(gid glyph.ID) string {
 	case *cff.Outlines:
 		return f.Glyphs[gid].Name
 	case *glyf.Outlines:
-		if f.Names == nil {
+		if int(gid) >= len(f.Names) {
 			return ""
 		}
 		return f.Names[gid]
